@@ -65,7 +65,7 @@ func ipSpell(rng *rand.Rand, ip net.IP, v6 bool) string {
 	return ip.String()
 }
 
-var badClasses = []string{"one-field", "three-fields", "bad-mac", "bad-ip", "wrong-family", "mac-too-short", "ip-garbage"}
+var badClasses = []string{"one-field", "three-fields", "bad-mac", "bad-ip", "wrong-family", "mac-too-short", "ip-garbage", "wrong-family-mapped", "ip-zoned"}
 
 func badLine(rng *rand.Rand, class string, v6 bool) string {
 	mac := "02:00:00:aa:bb:cc"
@@ -90,6 +90,16 @@ func badLine(rng *rand.Rand, class string, v6 bool) string {
 		return mac + " 10.0.0.256"
 	case "wrong-family":
 		return mac + " " + wrong
+	case "wrong-family-mapped": // an IPv4-mapped spelling is an IPv4 address
+		if v6 {
+			return mac + " ::ffff:10.9.9.9"
+		}
+		return mac + " 2001:db8::ffff:10.9.9.9"
+	case "ip-zoned": // net.ParseIP accepts no zone
+		if v6 {
+			return mac + " fe80::1%eth0"
+		}
+		return mac + " 10.9.9.9%eth0"
 	default:
 		return mac + " not-an-address"
 	}
@@ -548,13 +558,14 @@ func runFileRefresh(ctx *fw.Ctx, c *fileCase) {
 				rearmed = true
 			}
 		case "rearm":
-			if !r.Matched {
-				ctx.Viol("C10", "update-not-served", "%s: well-formed version %d was written (and written again); after %d polls over >= 20 s the server still serves %v", desc, e.ver, 400, seen)
-				return
-			}
+			// diagnostic only: the file is written once more to tell "never reloads" from "reloads only when touched again"
 			if rearmed {
-				ctx.Count("file.refresh.needed_rearm", 1)
-				rearmed = false
+				how := "is still not served after the file was written a second time"
+				if r.Matched {
+					how = "was only served after the file was written a second time"
+				}
+				ctx.Viol("C10", "update-not-served", "%s: well-formed version %d was written in place; after %d polls over >= 10 s the server still served %v; it %s", desc, e.ver, 200, seen, how)
+				return
 			}
 		case "progress-other":
 			if !r.Matched {
